@@ -14,7 +14,10 @@ RocksDb::_populate_batch, HistoricalRocksDB::commit_changes' merge loop; (3) eve
 KeyValueInspect / IterableStore method of HistoricalRocksDB delegates to the same-named method of
 its inner RocksDb with the column wrapped as Column::OriginalColumn; (4) RocksDb::_iter_store
 dispatches on (prefix, start) over all four combinations and the (Some, Some) arm returns the empty
-iterator when start does not start with prefix.
+iterator when start does not start with prefix; (5) history bookkeeping does not leak into the original
+columns: in store_modifications_history the reverse changes are computed from the block's own change
+set *before* cleanup_old_changes adds history removals to the transaction, and the per-key history is
+written under historical_duplicate_column_id(column).
 """
 NOT_DECIDED = """Ordering and prefix-boundary behaviour of reverse_prefix_iter / next_prefix (observation
 D2) and of the BTreeMap reference iterator — byte-level semantics, explicitly not decided."""
@@ -111,3 +114,18 @@ def check(ctx):
         sw = ctx.call_tests(b, "core::slice::<impl [T]>::starts_with", ) or ctx.call_tests(b, "[T]::starts_with")
         empties = b.calls_to("core::iter::sources::empty::empty")
         ctx.guarded("4.start-outside-prefix-is-empty", b, empties, sw, truth=False, detail="(Some(prefix), Some(start)) with a start outside the prefix yields nothing")
+
+    with ctx.clause("5.history-stays-out-of-original-columns"):
+        sb = ctx.body_with(f"{H}::store_modifications_history", f"{H}::reverse_history_changes")
+        rev = ctx.one_call(sb, f"{H}::reverse_history_changes")
+        cl = ctx.one_call(sb, f"{ST}::historical_rocksdb::cleanup_old_changes")
+        ctx.add("5.reverse-before-cleanup", "ORDER", sb.path([cl.target], [rev.bb]) is None and sb.path([rev.bb], [cl.bb]) is not None,
+                "reverse changes are computed over the block's own writes, before the history cleanup touches the transaction",
+                sites=[rev.where(), cl.where()], site_key="order")
+        ctx.arg_origin("5.reverse-of-transaction-changes", rev, 1, "call:fuel_core_storage::structured_storage::StructuredStorage::changes", depth=0)
+        u = F.unit(f"{H}::store_modifications_history")
+        dup = [c for b in u.bodies for c in b.calls_to(f"{ST}::historical_rocksdb::description::historical_duplicate_column_id")]
+        ctx.expect_sites("5.history-in-duplicate-columns", dup, exactly=1, what="historical_duplicate_column_id(column) for the per-key history")
+        ru = F.unit(f"{ST}::historical_rocksdb::remove_historical_modifications")
+        dup2 = [c for b in ru.bodies for c in b.calls_to(f"{ST}::historical_rocksdb::description::historical_duplicate_column_id")]
+        ctx.expect_sites("5.history-removed-from-duplicate-columns", dup2, exactly=1, what="historical_duplicate_column_id(column) when removing per-key history")
